@@ -9,7 +9,7 @@ Lemma heavy_vec3 : heavy_ok 3 [p_vec3_try_normalized; p_vec3_is_normalized; p_ve
 Proof.
   intros k a. cbv zeta. u11. intros He He4.
   pose proof (dotn_self_nonneg 3 (fun i => a i)) as Hnn.
-  split; [ | split; [ | split; [ | split; [ | split ] ] ] ].
+  split; [ | split; [ | split; [ | split; [ | split; [ | split ] ] ] ] ].
   - intros Hz. revert Hz Hnn. rrun_unfold. s_unfold. intros Hz Hnn.
     replace (0 * 0) with 0 by ring.
     match goal with |- context [Rabs (?E - 0)] => set (EE := E) in * end.
@@ -35,6 +35,11 @@ Proof.
     match goal with |- context [Rabs (?E - 1)] => set (EE := E) in * end.
     rewrite (Rabs_pos_eq EE) by lra. rewrite Rabs_R1.
     split_conds; first [ pos; rm; rabs; lra' | neg; rm; rabs; lra' ].
+  - revert Hnn. unfold flag_iff. rrun_unfold. s_unfold. intros Hnn.
+    match goal with |- context [Rabs (?E - ?X)] => set (EE := E) in *; set (XX := X) in * end.
+    assert (Hx : 0 <= XX) by (unfold XX; nra).
+    rewrite (Rabs_pos_eq EE) by lra. rewrite (Rabs_pos_eq XX) by lra.
+    split_conds; first [ pos; first [ left; rm; rabs; lra' | right; rm; rabs; lra' ] | neg; intros [Hd|Hd]; revert Hd; rm; rabs; lra' ].
   - clear Hnn. unfold ret1. rrun_unfold. s_unfold.
     rewrite (proj2 (Rltb_false 1 (Ropp 1))) by lra.
     split_conds; (eexists; split; [ reflexivity | ]);
